@@ -235,7 +235,7 @@ pub struct Const {
 
 #[derive(Serialize, Deserialize, Debug, Clone, PartialEq)]
 pub struct Method {
-    #[serde(default, skip_serializing_if = "BoolExt::is_true")]
+    #[serde(default = "BoolExt::omitted", skip_serializing_if = "BoolExt::is_true")]
     pub oneway: bool,
     pub name: String,
     pub return_type: Type,
@@ -561,10 +561,16 @@ impl Type {
 
 trait BoolExt {
     fn is_true(&self) -> bool;
+    fn omitted() -> Self;
 }
 
 impl BoolExt for bool {
     fn is_true(&self) -> bool {
         *self
+    }
+
+    // Value of a field which has been skipped via `is_true` (it is omitted exactly when true)
+    fn omitted() -> Self {
+        true
     }
 }
